@@ -8,13 +8,43 @@ use rustyline::Editor;
 
 fn check_bracket_closed(chars: impl Iterator<Item = char>) -> bool {
     let mut count = 0;
-    let mut in_comment = false;
-    for c in chars {
-        match (c, in_comment) {
-            ('(', false) => count += 1,
-            (')', false) => count -= 1,
-            (';', false) => in_comment = true,
-            ('\n', true) => in_comment = false,
+    let mut chars = chars.peekable();
+    while let Some(c) = chars.next() {
+        match c {
+            '(' => count += 1,
+            ')' => count -= 1,
+            // parentheses inside comments, strings, |identifiers| and character literals do not count
+            ';' => {
+                for n in &mut chars {
+                    if n == '\n' {
+                        break;
+                    }
+                }
+            }
+            '"' => {
+                while let Some(n) = chars.next() {
+                    match n {
+                        '\\' => {
+                            chars.next();
+                        }
+                        '"' => break,
+                        _ => (),
+                    }
+                }
+            }
+            '|' => {
+                for n in &mut chars {
+                    if n == '|' {
+                        break;
+                    }
+                }
+            }
+            '#' => {
+                if chars.peek() == Some(&'\\') {
+                    chars.next();
+                    chars.next();
+                }
+            }
             _ => (),
         }
     }
